@@ -84,6 +84,11 @@ pub struct Medium {
     /// `fields` list that disagrees with what the same type writes can)
     #[serde(default)]
     pub filter_fields: bool,
+    /// RON-like: the name given to `serialize_struct` / `serialize_newtype_struct` is stored, and a
+    /// reader asking for a struct under a different name is refused. (Renaming both sides together
+    /// is invisible; writing under one name and reading under another is not.)
+    #[serde(default)]
+    pub check_names: bool,
 }
 
 impl Medium {
@@ -95,6 +100,7 @@ impl Medium {
         human_readable: true,
         size_hint: SizeHint::None,
         filter_fields: false,
+        check_names: false,
     };
     pub fn keyed(&self) -> bool {
         self.framing != Framing::Positional
@@ -107,6 +113,7 @@ impl Medium {
             | (self.human_readable as u64) << 7
             | (self.size_hint as u64) << 8 // two bits
             | (self.filter_fields as u64) << 10
+            | (self.check_names as u64) << 11
     }
 }
 
